@@ -27,7 +27,7 @@ pub struct Opts {
     pub tab: u8,
 }
 const INDENTS: [u8; 6] = [3, 5, 2, 1, 9, 0]; // Spaces(2), Spaces(4), Spaces(1), Spaces(0), Spaces(8), Tabs
-const TABS: [u8; 5] = [4, 1, 2, 8, 0];
+const TABS: [u8; 4] = [4, 1, 2, 8];
 
 impl Opts {
     pub fn default_opts() -> Opts {
@@ -55,11 +55,11 @@ impl Opts {
     pub fn from_code(code: u64) -> Opts {
         let mut b = [false; 7];
         for (i, x) in b.iter_mut().enumerate() { *x = (code >> i) & 1 == 1; }
-        Opts { b, indent: INDENTS[((code >> 7) % 6) as usize], tab: TABS[((code >> 10) % 5) as usize] }
+        Opts { b, indent: INDENTS[((code >> 7) % 6) as usize], tab: TABS[((code >> 10) % 4) as usize] }
     }
 }
 
-/// Covering array of strength 2 over 7 booleans x 6 indentations x 5 tab sizes
+/// Covering array of strength 2 over 7 booleans x 6 indentations x 4 tab sizes
 /// (greedy; deterministic).
 pub fn covering_array() -> Vec<Opts> {
     let mut rng = Rng::new(0xC15);
@@ -384,64 +384,133 @@ fn fails(src: &[u8], o: &Opts, clause: &str) -> bool {
     failing_clauses(src, &ob).contains(&clause)
 }
 
+/// Does the parser report a syntax error for this source?
+pub fn has_syntax_errors(src: &[u8]) -> bool {
+    CSTStream::from(Parser::new(src)).any(|e| matches!(e, Event::Error { .. } | Event::Begin { kind: SyntaxKind::ERROR, .. }))
+}
+
+/// Fingerprint of a failing case: the failing clause, whether the source is
+/// syntactically valid, and for idempotence failures the known shape.
+pub fn classify(src: &[u8], o: &Opts, clause: &str) -> String {
+    let valid = if has_syntax_errors(src) { "invalid-source" } else { "valid-source" };
+    if clause == "idempotence" && valid == "valid-source" { classify_idempotence(src, o) }
+    else if clause == "idempotence" { "idempotence:invalid-source".to_string() }
+    else if clause == "tokens" {
+        let ob = observe(src, o);
+        let (a, b) = (&ob.in_sig, &ob.out1_sig);
+        let n = a.len();
+        let ext = n > 0 && n == b.len() && a[..n - 1] == b[..n - 1] && a[n - 1].0 == b[n - 1].0 && b[n - 1].1.starts_with(&a[n - 1].1)
+            && b[n - 1].1[a[n - 1].1.len()..].iter().all(|c| c.is_ascii_whitespace());
+        format!("tokens:{}:{}", valid, if ext { "last-token-extended-by-appended-line-break" } else { "other" })
+    }
+    else { format!("{}:{}", clause, valid) }
+}
+
+fn fails_as(src: &[u8], o: &Opts, clause: &str, class: &str) -> bool {
+    fails(src, o, clause) && classify(src, o, clause) == class
+}
+
 /// Greedy minimisation of a failing source (lines, then tokens, then characters
 /// of comments/whitespace) keeping the same clause failing under the same options.
-pub fn minimise(src: &[u8], o: &Opts, clause: &'static str) -> Vec<u8> {
+pub fn minimise(src: &[u8], o: &Opts, clause: &'static str, class: &str) -> Vec<u8> {
     let mut cur = src.to_vec();
-    let mut budget = 400;
-    // 1. remove chunks of tokens (spans of the CST token stream)
-    loop {
-        let mut progress = false;
-        let spans: Vec<std::ops::Range<usize>> = CSTStream::from(Parser::new(cur.as_slice()))
-            .filter_map(|e| if let Event::Token { span, .. } = e { Some(span.range()) } else { None }).collect();
-        let mut chunk = (spans.len() / 2).max(1);
-        while chunk >= 1 && budget > 0 {
-            let mut i = 0;
-            let mut removed_any = false;
-            let spans2: Vec<std::ops::Range<usize>> = CSTStream::from(Parser::new(cur.as_slice()))
-                .filter_map(|e| if let Event::Token { span, .. } = e { Some(span.range()) } else { None }).collect();
-            while i + chunk <= spans2.len() && budget > 0 {
-                let (a, b) = (spans2[i].start, spans2[i + chunk - 1].end);
-                let mut cand = cur[..a].to_vec(); cand.extend_from_slice(&cur[b..]);
-                budget -= 1;
-                if cand.len() < cur.len() && fails(&cand, o, clause) { cur = cand; removed_any = true; progress = true; break; }
-                i += chunk;
-            }
-            if !removed_any { if chunk == 1 { break; } chunk /= 2; }
+    let mut budget = 1500i32;
+    let token_spans = |s: &[u8]| -> Vec<std::ops::Range<usize>> {
+        CSTStream::from(Parser::new(s)).filter_map(|e| if let Event::Token { span, .. } = e { Some(span.range()) } else { None }).collect()
+    };
+    // delta debugging over the tokens of the CST (whitespace and comments included)
+    let mut chunk = (token_spans(&cur).len() / 2).max(1);
+    while budget > 0 {
+        let spans = token_spans(&cur);
+        let mut i = 0;
+        let mut removed = false;
+        while i < spans.len() && budget > 0 {
+            let j = (i + chunk).min(spans.len());
+            let (a, b) = (spans[i].start, spans[j - 1].end);
+            let mut cand = cur[..a].to_vec(); cand.extend_from_slice(&cur[b..]);
+            budget -= 1;
+            if cand.len() < cur.len() && fails_as(&cand, o, clause, class) { cur = cand; removed = true; break; }
+            i += chunk;
         }
-        if !progress || budget == 0 { break; }
+        if !removed { if chunk == 1 { break; } chunk = (chunk / 2).max(1); }
     }
     cur
 }
 
-/// Fingerprint of an idempotence failure. The known defect (DESIGN.md
-/// section 7 #15): a `/* */` comment between `condition:` and the first term of
-/// the condition, the condition continuing on a later line. It is recognised
-/// by removing exactly those comments and observing that the failure
-/// disappears.
-pub fn classify_idempotence(src: &[u8], o: &Opts) -> String {
-    let mut prev2: Option<Vec<u8>> = None; let mut prev1: Option<Vec<u8>> = None;
-    let mut cand = vec![];
-    let mut cuts: Vec<std::ops::Range<usize>> = vec![];
-    for ev in CSTStream::from(Parser::new(src)) {
-        if let Event::Token { kind, span } = ev {
-            let text = &src[span.range()];
-            match kind {
-                SyntaxKind::WHITESPACE | SyntaxKind::NEWLINE => {}
-                SyntaxKind::COMMENT => {
-                    if text.starts_with(b"/*") && prev1.as_deref() == Some(b":") && prev2.as_deref() == Some(b"condition") {
-                        cuts.push(span.range());
-                    }
-                }
-                _ => { prev2 = prev1.take(); prev1 = Some(text.to_vec()); }
-            }
+/// Significant tokens with their spans.
+fn sig_spans(src: &[u8]) -> Vec<(SyntaxKind, std::ops::Range<usize>)> {
+    CSTStream::from(Parser::new(src)).filter_map(|e| match e {
+        Event::Token { kind, span } if kind != SyntaxKind::WHITESPACE && kind != SyntaxKind::NEWLINE => Some((kind, span.range())),
+        _ => None }).collect()
+}
+
+/// Coarse description of a token for fingerprints.
+fn describe(kind: SyntaxKind, text: &[u8]) -> String {
+    match kind {
+        SyntaxKind::COMMENT => if text.starts_with(b"/*") { if text.contains(&b'\n') { "/*multi-line*/".into() } else { "/*block*/".into() } } else { "//line".into() },
+        SyntaxKind::IDENT => "IDENT".into(),
+        SyntaxKind::PATTERN_IDENT | SyntaxKind::PATTERN_COUNT | SyntaxKind::PATTERN_OFFSET | SyntaxKind::PATTERN_LENGTH => "PATTERN".into(),
+        _ => {
+            let t = String::from_utf8_lossy(text).to_string();
+            if t.len() <= 10 && t.chars().all(|c| c.is_ascii_punctuation() || c.is_ascii_lowercase()) && !t.contains('"') && !t.contains('/') { t } else { "LIT".into() }
         }
     }
-    if cuts.is_empty() { return "idempotence:other".into(); }
-    let mut at = 0;
-    for c in &cuts { cand.extend_from_slice(&src[at..c.start]); cand.push(b' '); at = c.end; }
-    cand.extend_from_slice(&src[at..]);
-    if fails(&cand, o, "idempotence") { "idempotence:other".into() } else { "idempotence:block-comment-before-first-condition-term".into() }
+}
+
+/// Where and how the second pass differs from the first: the first gap
+/// between significant tokens whose whitespace changes, described by the two
+/// tokens before it, the change in the number of line breaks, and the token
+/// after it.
+pub fn diff_fingerprint(p1: &[u8], p2: &[u8]) -> String {
+    let (a, b) = (sig_spans(p1), sig_spans(p2));
+    if a.len() != b.len() { return "token-count-changes".into(); }
+    let gap = |src: &[u8], spans: &[(SyntaxKind, std::ops::Range<usize>)], i: usize| -> Vec<u8> {
+        let start = if i == 0 { 0 } else { spans[i - 1].1.end };
+        let end = if i == spans.len() { src.len() } else { spans[i].1.start };
+        src[start..end].to_vec()
+    };
+    for i in 0..=a.len() {
+        let (g1, g2) = (gap(p1, &a, i), gap(p2, &b, i));
+        if g1 != g2 {
+            let nl = |g: &[u8]| g.iter().filter(|c| **c == b'\n').count();
+            let d = |j: isize| -> String { if j < 0 { "START".into() } else if j as usize >= a.len() { "END".into() } else { describe(a[j as usize].0, &p1[a[j as usize].1.clone()]) } };
+            let is_comment = |j: isize| j >= 0 && (j as usize) < a.len() && a[j as usize].0 == SyntaxKind::COMMENT;
+            let change = if nl(&g1) < nl(&g2) { "line-break-added" } else if nl(&g1) > nl(&g2) { "line-break-removed" } else { "spaces-changed" };
+            return if is_comment(i as isize - 1) { format!("whitespace-next-to-comment:{}-after-comment", change) }
+                else if is_comment(i as isize) { format!("whitespace-next-to-comment:{}-before-comment", change) }
+                else if i == a.len() { format!("{}-at-end-of-file", change) }
+                else { format!("other:after[{} {}] {} before[{}]", d(i as isize - 2), d(i as isize - 1), change, d(i as isize)) };
+        }
+        if i < a.len() && p1[a[i].1.clone()] != p2[b[i].1.clone()] {
+            return if a[i].0 == SyntaxKind::COMMENT { "comment-continuation-lines-reindented".into() }
+                   else { format!("token-text-changes[{}]", describe(a[i].0, &p1[a[i].1.clone()])) };
+        }
+    }
+    "no-difference-found".into()
+}
+
+/// Fingerprint of an idempotence failure on a syntactically valid source.
+/// The defect of DESIGN.md section 7 #15 -- a `/* */` comment between
+/// `condition:` and the first term of the condition -- is recognised by
+/// removing exactly those comments and observing that the failure disappears;
+/// every other failure is described by [diff_fingerprint].
+pub fn classify_idempotence(src: &[u8], o: &Opts) -> String {
+    let mut prev2: Option<Vec<u8>> = None; let mut prev1: Option<Vec<u8>> = None;
+    let mut cuts: Vec<std::ops::Range<usize>> = vec![];
+    for (kind, span) in sig_spans(src) {
+        let text = &src[span.clone()];
+        if kind == SyntaxKind::COMMENT {
+            if text.starts_with(b"/*") && prev1.as_deref() == Some(b":") && prev2.as_deref() == Some(b"condition") { cuts.push(span); }
+        } else { prev2 = prev1.take(); prev1 = Some(text.to_vec()); }
+    }
+    if !cuts.is_empty() {
+        let mut cand = vec![]; let mut at = 0;
+        for c in &cuts { cand.extend_from_slice(&src[at..c.start]); cand.push(b' '); at = c.end; }
+        cand.extend_from_slice(&src[at..]);
+        if !fails(&cand, o, "idempotence") { return "idempotence:block-comment-before-first-condition-term".into(); }
+    }
+    let ob = observe(src, o);
+    format!("idempotence:valid-source:{}", diff_fingerprint(&ob.out1_text, &ob.out2_text))
 }
 
 // ------------------------------------------------------------------ Coq printers
@@ -558,8 +627,8 @@ fn gen_action(rng: &mut Rng, kinds: &[SyntaxKind]) -> VAction {
 /// `token(1) is X && token(-1) is not Y` etc.
 fn gen_rule(rng: &mut Rng, pool: &[VTok], kinds: &[SyntaxKind]) -> (VCond, VAction) {
     let a = gen_action(rng, kinds);
-    let c = match (&a, rng.below(4)) {
-        (VAction::Insert(ts), 0 | 1) => {
+    let c = match (&a, rng.below(6)) {
+        (VAction::Insert(ts), 0..=4) => {
             // guarded insertion: does not fire again right after itself
             let guard = VCond::Neq(-1, ts.last().unwrap().clone());
             VCond::And(Box::new(gen_cond(rng, 1, pool, kinds)), Box::new(guard))
@@ -627,6 +696,7 @@ pub fn run(args: &[String]) -> i32 {
     stats.add("covering_array_rows", ca.len() as u64);
     let mut ca_next = 0usize;
     let mut hangs = 0;
+    let mut minimised_classes = std::collections::HashSet::new();
 
     // ---------------- the property on the implementation
     let mut pending: Vec<(String, Opts)> = corpus();
@@ -656,6 +726,13 @@ pub fn run(args: &[String]) -> i32 {
         };
         let utf8 = std::str::from_utf8(&src_bytes).is_ok();
         stats.inc(&format!("source_{}", kind));
+        if has_syntax_errors(&src_bytes) {
+            stats.inc(&format!("source_{}_with_syntax_errors", kind));
+            if kind == "valid" && arg_flag(args, "--dump-invalid") {
+                for e in CSTStream::from(Parser::new(src_bytes.as_slice())) { if let Event::Error { message, span } = e {
+                    eprintln!("INVALID: {} at {:?}: ...{}", message, span, String::from_utf8_lossy(&src_bytes[span.start().saturating_sub(30)..(span.end() + 10).min(src_bytes.len())]).replace('\n', " ")); break; } }
+            }
+        }
         if src_bytes.windows(2).any(|w| w == b"/*") || src_bytes.windows(2).any(|w| w == b"//") { stats.inc("source_has_comment"); }
         if src_bytes.contains(&b'\t') { stats.inc("source_has_tab"); }
         if src_bytes.windows(2).any(|w| w == b"\r\n") { stats.inc("source_has_crlf"); }
@@ -674,8 +751,9 @@ pub fn run(args: &[String]) -> i32 {
             if !failing.is_empty() {
                 for f in &failing { stats.inc(&format!("impl_fails_{}", f)); }
                 let clause = failing[0];
-                let m = if src_bytes.len() < 4000 { minimise(&src_bytes, &o, clause) } else { src_bytes.clone() };
-                class = if clause == "idempotence" { classify_idempotence(&m, &o) } else { clause.to_string() };
+                class = classify(&src_bytes, &o, clause);
+                let first = minimised_classes.insert(class.clone());
+                let m = if first && src_bytes.len() < 4000 { minimise(&src_bytes, &o, clause, &class) } else { src_bytes.clone() };
                 // the class is that of the FIRST failing clause; further failing clauses are listed
                 minimal = Some(m);
             }
@@ -776,6 +854,6 @@ fn probe(path: &str) -> i32 {
     println!("--- pass 1 ({:?})\n{}", ob.out1, String::from_utf8_lossy(&ob.out1_text));
     println!("--- pass 2 ({:?})\n{}", ob.out2, String::from_utf8_lossy(&ob.out2_text));
     println!("failing clauses: {:?}", f);
-    if f.contains(&"idempotence") { println!("class: {}", classify_idempotence(&src, &o)); }
+    for c in &f { println!("class: {}", classify(&src, &o, c)); }
     if f.is_empty() { 0 } else { 1 }
 }
